@@ -39,6 +39,20 @@ class AllocTraceExecutor(TraceExecutor):
         yield from super()._free_physical_qubit(subroutine_id, address)
         self.events.append(["F", address])
 
+    on_request = None
+
+    def _do_create_epr(self, **kw):
+        r = super()._do_create_epr(**kw)
+        if self.on_request is not None:
+            self.on_request()
+        return r
+
+    def _do_recv_epr(self, **kw):
+        r = super()._do_recv_epr(**kw)
+        if self.on_request is not None:
+            self.on_request()
+        return r
+
     def _do_meas(self, subroutine_id, q_address):
         r = super()._do_meas(subroutine_id, q_address)
         self.events.append(["U", q_address])
@@ -61,31 +75,80 @@ class AllocTraceExecutor(TraceExecutor):
         self.events.append(["U2", address1, address2])
 
 
+SLOW = 50000  # generation duration (goodness field) that fails min_fidelity_all_at_end=80 (28000 us)
+FAST = 100
+
+
 class QConn(PipelineConnection):
-    """Delivers one OK-K response per wait poll to the oldest open request."""
+    """Scripted link layer.  `schedule`:
+      lazy  - one OK-K response per wait poll, for the oldest open request (the link layer never
+              runs ahead of the subroutine)
+      burst - up to two responses per wait poll
+      eager - all responses of a request as soon as the request is issued (the link layer runs
+              ahead; responses whose destination id is still in use are deferred by the
+              controller and retried at every wait poll)
+    `goodness_plan`: generation durations, one per issued request (default FAST)."""
 
     bell = 0  # Bell state index of every delivered pair (0 = Phi+)
     bells = None  # optional iterator of Bell state indices
+    schedule = "lazy"
 
-    def on_wait(self):
+    def _open_requests(self):
         ex = self.executor
         for reqs, flag in ((ex._epr_create_requests, 0), (ex._epr_recv_requests, 1)):
             for key, lst in list(reqs.items()):
-                if not lst:
-                    continue
-                remote, purpose = key
-                for p in count(0):
-                    if p not in ex._used_physical_qubit_addresses:
-                        break
-                b = self.bell if self.bells is None else next(self.bells)
-                ex._handle_epr_response(LinkLayerOKTypeK(
-                    logical_qubit_id=p, directionality_flag=flag, purpose_id=purpose,
-                    remote_node_id=remote, bell_state=BellState(b), create_id=0, sequence_number=0))
-                if ex._pending_epr_responses:
-                    ex._pending_epr_responses.clear()
-                    raise Blocked("delivery target is allocated")
-                return True
-        return False
+                for cmd in lst:
+                    yield key, flag, cmd
+
+    def _send(self, key, flag, cmd):
+        ex = self.executor
+        remote, purpose = key
+        used = set(ex._used_physical_qubit_addresses) | set(self._promised)
+        for p in count(0):
+            if p not in used:
+                break
+        self._promised.append(p)
+        b = self.bell if self.bells is None else next(self.bells)
+        self._sent[id(cmd)] = self._sent.get(id(cmd), 0) + 1
+        ex._handle_epr_response(LinkLayerOKTypeK(
+            logical_qubit_id=p, directionality_flag=flag, purpose_id=purpose,
+            remote_node_id=remote, bell_state=BellState(b), create_id=0, sequence_number=0,
+            goodness=self._goodness.get(id(cmd), FAST)))
+
+    def _deliver(self, limit):
+        """send up to `limit` not yet sent responses, oldest request first; returns how many"""
+        n = 0
+        for key, flag, cmd in list(self._open_requests()):
+            while n < limit and self._sent.get(id(cmd), 0) < cmd.tot_pairs:
+                self._send(key, flag, cmd)
+                n += 1
+        return n
+
+    def on_request(self):
+        """called by the executor right after a create/recv request was registered"""
+        for key, flag, cmd in self._open_requests():
+            if id(cmd) not in self._goodness:
+                self._goodness[id(cmd)] = self.goodness_plan.pop(0) if self.goodness_plan else FAST
+                self._keep.append(cmd)
+        if self.schedule == "eager":
+            self._deliver(10 ** 6)
+
+    def on_wait(self):
+        ex = self.executor
+        handled0 = sum(1 for e in ex.events if e[0] == "D")
+        pend0 = len(ex._pending_epr_responses)
+        sent = 0
+        if not ex._pending_epr_responses or self.schedule != "lazy":
+            sent = self._deliver({"lazy": 1, "burst": 2, "eager": 10 ** 6}[self.schedule])
+        if ex._pending_epr_responses:
+            ex._handle_pending_epr_responses()
+        handled1 = sum(1 for e in ex.events if e[0] == "D")
+        # physical ids promised to responses that have been handled are now really in use
+        self._promised = [p for p in self._promised if p not in ex._used_physical_qubit_addresses]
+        if handled1 == handled0 and sent == 0:
+            ex._pending_epr_responses.clear()
+            raise Blocked("no response can be handled" if pend0 else "nothing to deliver")
+        return True
 
 
 GATES1 = ["H", "X", "Z", "T", "S", "K", "Y", "rot"]
@@ -140,7 +203,7 @@ def is_fatal(r):
     return r in FATAL or r.startswith("fault:") or r.startswith("error:")
 
 
-def run_real(cfg, ops, bell=0, bells=None):
+def run_real(cfg, ops, bell=0, bells=None, schedule="lazy"):
     """Returns (snapshots, oracle_notes).  A snapshot is {"r","h","ev","u"} as in the model;
     oracle_notes is a list of (op index, text) where the model-free oracle is violated."""
     reset_globals()
@@ -155,6 +218,10 @@ def run_real(cfg, ops, bell=0, bells=None):
     conn = QConn("alice", executor=ex, max_qubits=n, epr_sockets=[sock], **kw)
     conn.bell = bell
     conn.bells = bells
+    conn.schedule = schedule
+    conn.goodness_plan = []
+    conn._goodness, conn._sent, conn._promised, conn._keep = {}, {}, [], []
+    ex.on_request = conn.on_request
     mm = conn.builder._mem_mgr
     handles = []
     seen = set()
@@ -218,16 +285,29 @@ def run_real(cfg, ops, bell=0, bells=None):
                 released = vid
             elif k == "keep":
                 (sock.recv_keep if op["recv"] else sock.create_keep)(number=op["n"])
+                conn.goodness_plan.append(FAST)
+            elif k == "keepr":
+                (sock.recv_keep if op["recv"] else sock.create_keep)(
+                    number=op["n"], min_fidelity_all_at_end=80, max_tries=op["tries"])
+                conn.goodness_plan += [SLOW] * min(op["fails"], op["tries"]) + ([FAST] if op["fails"] < op["tries"] else [])
+            elif k == "seqr":
+                f = body_fn(op["body"])
+                (sock.recv_keep if op["recv"] else sock.create_keep)(
+                    number=op["n"], sequential=True, post_routine=lambda c, q, pair: f(q),
+                    min_fidelity_all_at_end=80, max_tries=op["tries"])
+                conn.goodness_plan += [SLOW] * min(op["fails"], op["tries"]) + ([FAST] if op["fails"] < op["tries"] else [])
             elif k == "seq":
                 f = body_fn(op["body"])
                 (sock.recv_keep if op["recv"] else sock.create_keep)(
                     number=op["n"], sequential=True, post_routine=lambda c, q, pair: f(q))
+                conn.goodness_plan.append(FAST)
             elif k == "ctx":
                 f = body_fn(op["body"])
                 cm = (sock.recv_context if op["recv"] else sock.create_context)(
                     number=op["n"], sequential=op["sequential"])
                 with cm as (q, pair):
                     f(q)
+                conn.goodness_plan.append(FAST)
             elif k == "flush":
                 conn.flush()
             elif k == "close":
@@ -236,8 +316,9 @@ def run_real(cfg, ops, bell=0, bells=None):
                 raise KeyError(k)
         except QubitNotActiveError:
             r = "notactive"
-        except AssertionError:
-            r = "assertion"
+        except AssertionError as e:
+            # (inside the retry-loop block the loop's own `finally:` assertion masks a ValueError)
+            r = "valueerror" if isinstance(e.__context__, ValueError) else "assertion"
         except UnboundLocalError as e:
             # create_context/recv_context: the `finally:` clause runs after the AssertionError of
             # `_create_ent_qubits` and trips over its own unbound locals
@@ -251,7 +332,7 @@ def run_real(cfg, ops, bell=0, bells=None):
         except Exception as e:  # noqa: BLE001
             if k in ("flush", "close"):
                 r = classify_fault(e)
-            elif isinstance(e, ValueError) and k in ("keep", "seq", "ctx"):
+            elif isinstance(e, ValueError) and k in ("keep", "seq", "ctx", "keepr", "seqr"):
                 r = "valueerror"
             else:
                 r = "error:" + type(e).__name__ + ":" + str(e)[:80]
@@ -301,7 +382,7 @@ def created(op):
     k = op["k"]
     if k == "new":
         return 1
-    if k in ("keep", "seq", "ctx"):
+    if k in ("keep", "seq", "ctx", "keepr", "seqr"):
         return op["n"]
     return 0
 
@@ -339,10 +420,17 @@ def analyse(cfg, ops):
                 wf = False
             elif alive[op["h"]]:
                 alive[op["h"]] = False
-        elif k == "keep":
+        elif k in ("keep", "keepr"):
             if op["n"] > cfg["maxq"]:
+                if k == "keepr":
+                    wf = False  # the argument check fires inside the retry loop block
                 continue  # rejected by the SDK, nothing happens
+            if k == "keepr" and op["fails"] >= op["tries"]:
+                wf = False  # the request never succeeds: the returned handles are void
             alive.extend([True] * op["n"])
+        elif k == "seqr":
+            peak = max(peak, cnt() + 1)
+            alive.extend([False] * op["n"])
         elif k in ("seq", "ctx"):
             if k == "ctx" and not op["sequential"] and op["n"] > cfg["maxq"]:
                 continue
@@ -412,9 +500,9 @@ def random_ops(rng, cfg, length, loops=True, over_budget=False):
         room = limit - len(lv)
         choices = ["flush"] * 2
         if room >= 1:
-            choices += ["new"] * 4 + ["keep"] * 2
+            choices += ["new"] * 4 + ["keep"] * 2 + ["keepr"]
             if loops:
-                choices += ["seq", "ctx"]
+                choices += ["seq", "ctx", "seqr"]
         if lv:
             choices += ["gate"] * 2 + ["measd"] * 3 + ["measi", "free", "free"]
         if len(lv) >= 2:
@@ -443,6 +531,19 @@ def random_ops(rng, cfg, length, loops=True, over_budget=False):
             n = rng.randint(1, max(1, min(room, 3)))
             ops.append({"k": "keep", "recv": rng.random() < 0.5, "n": n})
             alive.extend([True] * n)
+        elif k == "keepr":
+            n = min(cfg["maxq"], rng.randint(1, max(1, min(room, 3))))
+            tries = rng.randint(1, 3)
+            ops.append({"k": "keepr", "recv": rng.random() < 0.5, "n": n, "tries": tries,
+                        "fails": rng.randrange(tries)})
+            alive.extend([True] * n)
+        elif k == "seqr":
+            n = rng.randint(1, 3)
+            tries = rng.randint(1, 3)
+            ops.append({"k": "seqr", "recv": rng.random() < 0.5, "n": n, "tries": tries,
+                        "fails": rng.randrange(tries),
+                        "body": {"g": rng.randrange(3), "c": rng.choice(["meas", "free"])}})
+            alive.extend([False] * n)
         elif k == "seq":
             n = rng.randint(1, 3)
             ops.append({"k": "seq", "recv": rng.random() < 0.5, "n": n,
